@@ -1,3 +1,4 @@
+import LiquidVerif.Gen.C20Unicode
 /-!
 Model of `LiquidError._error_context` (`liquid/exceptions.py`) and `Span.line_col` (`liquid/span.py`):
 
@@ -32,7 +33,7 @@ def splitLines (text : List Char) : List (List Char) := splitAux [] text
 /-- Python `str.isspace()` for code points below U+0100, and the two line separators above -/
 def isSpace (c : Char) : Bool :=
   c == ' ' || (0x09 ≤ c.val && c.val ≤ 0x0D) || (0x1C ≤ c.val && c.val ≤ 0x1F) || c.val == 0x85 || c.val == 0xA0
-  || c.val == 0x2028 || c.val == 0x2029
+  || (0x100 ≤ c.val && LiquidVerif.Gen.C20Unicode.spaceRanges.any fun r => r.1 ≤ c.val.toNat && c.val.toNat ≤ r.2)
 
 def rstrip (s : List Char) : List Char := (s.reverse.dropWhile isSpace).reverse
 
